@@ -108,6 +108,17 @@ CHECKS = {
                 "periodic round has no public trigger: rounds are triggered through EndOfRIB() (flush of all buckets) or the real ticker.",
         "technique": "TLA+ spec Sender + TLC (safety exhaustively, liveness under fairness); behaviour replay against the real UpdateSender with wire capture",
     },
+    "C16": {
+        "text": "WireRx is a wire grammar: 14 valid BGP messages written field by field (so every length field, count, prefix length, "
+                "flag and type code is a known position) and mutation classes over them (truncation at every byte offset, header "
+                "length grown with zero fill, every single byte replaced by boundary values) x decode option combinations. TLC "
+                "enumerates the cases and checks the grammar's laws (framing, byte range); each case is decoded by packet.Decode in the "
+                "real code: no panic, a message or an error, bounded time and allocation; unmutated messages are accepted.",
+        "note": "Claimed for the structured mutation classes of the wire grammar (single-field corruption, truncation, over-announced "
+                "length), not for arbitrary byte strings: multi-field corruptions are outside the explored space. Trusted: the grammar "
+                "(each base message is checked well-formed by the independent reference decoder before use).",
+        "technique": "TLA+ spec WireRx (grammar + mutation classes) enumerated by TLC; per-case replay into packet.Decode with panic/time/allocation oracles",
+    },
     "C17": {
         "text": "WireTx defines byte-exact attribute and message sizes and the attribute set per session kind; TLC enumerates the classes "
                 "around every encoding boundary (255/256-byte values, 255 ASNs per segment, CLUSTER_LIST/communities/unknown attributes, "
